@@ -574,6 +574,7 @@ def t_delta(task, ctx: Ctx):
         exprs.append(("u", ("attr", 0), ("join", (a, b), (0, 0))))
         exprs.append(("u", ("lr", 1, 0), ("combine", (a, b))))
     for a, b, c in itertools.permutations(L, 3):
+        exprs.append(("combine", (a, b, c)))
         exprs.append(("combine", (a, ("join", (b, c), (0, 0)))))
         exprs.append(("join", (a, ("combine", (b, c))), (0, 1)))
     built = []
@@ -586,6 +587,13 @@ def t_delta(task, ctx: Ctx):
 
     def geom(c):
         return tuple((r, tuple(cv[2] for cv in cvs)) for r, cvs in c.shards)
+
+    def row_bounds(c):
+        out, acc = [], 0
+        for r, _cvs in c.shards:
+            acc += r
+            out.append(acc)
+        return out
 
     def tails(c):
         tot = c.cols()
@@ -602,7 +610,18 @@ def t_delta(task, ctx: Ctx):
             case = {"old": e_old, "new": e_new, "leaves": names}
             # 'aligned': same shard rows and cview columns in both canvases, no cview spanning several shards
             aligned = geom(c_old) == geom(c_new) and not tails(c_old) and not tails(c_new)
-            dom = "aligned" if aligned else "misaligned-geometry"
+            if aligned:
+                dom = "aligned"
+            else:
+                # which kind of misalignment: shard row boundaries, cview column boundaries within equal rows, cviews spanning several shards
+                parts = []
+                if row_bounds(c_old) != row_bounds(c_new):
+                    parts.append("rows")
+                elif geom(c_old) != geom(c_new):
+                    parts.append("columns")
+                if tails(c_old) or tails(c_new):
+                    parts.append("spanning")
+                dom = "misaligned-geometry/" + "+".join(parts)
             try:
                 delta = list(c_new.content_delta(c_old))
                 got = apply_delta(old_rows, delta)
@@ -704,7 +723,8 @@ def run(tier, R):
     pairs = list(itertools.product(inner_leaves, repeat=2))
     for part in chunks(pairs, 2 if tier == "quick" else 1):
         tasks.append(("l3", part, outer_leaves, False))
-    dsets = [("ab", "two2", "wide2", "solid"), ("tall3", "tall4", "attr", "wattr", "abc-cur"), ("ab", "sp", "abc-cur", "dec", "wide-cur", "attr", "wattr")]
+    dsets = [("ab", "two2", "wide2", "solid"), ("tall3", "tall4", "attr", "wattr", "abc-cur"), ("ab", "sp", "abc-cur", "dec", "wide-cur", "attr", "wattr"),
+             ("ab", "sp", "two2")]  # one- and two-row leaves of one width: stacks of the same height whose shared leaf sits on different rows
     if tier == "thorough":
         dsets.append(("ab", "wide2", "tall4", "dec", "wide-cur", "popup"))
     for ds in dsets:
